@@ -37,14 +37,21 @@ def enc_rows(a, base):
 # ------------------------------------------------------------------------------------------------
 def pattern_candles(total, fills, ts0=S.T0):
     """flat series at 100 whose minute m dips to 98 (entry limit at 99 fills) and/or spikes to 102 (take-profit at
-    101 fills) as `fills[m]` in {0,1,2} asks.  Whether it really happens depends on the position - the trace logs
+    101 fills) as `fills[m]` in {0,1,2} asks; 3 = the order fills exactly at the minute's close while the wick goes
+    beyond the close (the partial candle then has the final close and volume but not the final low / high).  Whether it really happens depends on the position - the trace logs
     what did happen."""
     c = np.zeros((total, 6))
     opened = False
     for m in range(total):
         f = fills.get(m, 0)
         o = cl = h = l = 100.0
-        if f == 2 and not opened:
+        if f == 3 and not opened:
+            cl, l = 99.0, 97.0                 # the entry limit at 99 fills exactly AT THE CLOSE, the wick goes on to 97
+            opened = True
+        elif f == 3 and opened:
+            cl, h = 101.0, 103.0               # the take-profit at 101 fills exactly at the close, the wick reaches 103
+            opened = False
+        elif f == 2 and not opened:
             l, h = 98.0, 102.0                 # bullish doji: open -> low -> high -> close
         elif f >= 1 and not opened:
             l = 98.0
